@@ -130,6 +130,10 @@ func (s *scalarStream) rt(v interface{}) (wire []byte, out interface{}, encErr, 
 	return
 }
 
+type c07Offset int
+type c07Handle uint64
+type c07Count uint
+
 type c07Leaf struct {
 	V int64
 	W int32
@@ -443,7 +447,9 @@ func (c07) Run(c Case, env *Env) Result {
 		c07kinds(c, env, &res)
 	case "lit":
 		// committed witnesses: out-of-range Go integers at top level must be exact or rejected
-		for _, v := range []interface{}{int(1) << 40, -(int(1) << 40), uint64(1) << 63, uint(1<<64 - 1)} {
+		for _, v := range []interface{}{int(1) << 40, -(int(1) << 40), uint64(1) << 63, uint(1<<64 - 1),
+			// the same through NAMED types of those kinds (whatever fast path the built-in kinds take)
+			c07Offset(1) << 40, -(c07Offset(1) << 40), c07Handle(1) << 63, c07Handle(1<<64 - 1), c07Count(1<<64 - 1)} {
 			res.Evals++
 			res.NTCount++
 			o := roundTrip(v)
